@@ -546,6 +546,67 @@ def run(ctx):
                   f'{exp}', ctx.where(rm, rs), sample={'function': fv,
                                                        'output': got})
     ctx.floor('C18.Q2.output', 3)
+    # a dry run writes a placeholder gradient of the shape of the real one:
+    # one leading entry per inverted property (none for isotropic, 2 for HTI
+    # / VTI, 3 for triaxial -- the anisotropy table of Model.__init__)
+    dz = [n for n in ast.walk(rs) if isinstance(n, ast.Assign) and
+          isinstance(n.targets[0], ast.Subscript) and ast.unparse(
+              n.targets[0].value) == O and isinstance(
+                  n.targets[0].slice, ast.Constant) and
+          n.targets[0].slice.value == 'gradient' and 'np.zeros' in
+          ast.unparse(n.value)]
+    ctx.anchor(len(dz) == 1 and isinstance(dz[0].value, ast.Call) and
+               dz[0].value.args, 'placeholder gradient of the dry run')
+    shp = dz[0].value.args[0]
+    arm = au.enclosing(dz[0], ast.If)
+    for case, lead in (('isotropic', []), ('HTI', [2]), ('VTI', [2]),
+                       ('triaxial', [3])):
+        env = {f'{S}.model.case': case, F: 'gradient'}
+        env.update({d: True for d in dnames})
+        got = None
+        if isinstance(shp, ast.Name):
+            cur = 'BASE'
+            for st in sorted((n for n in ast.walk(arm) if isinstance(
+                    n, ast.Assign) and isinstance(n.targets[0], ast.Name)),
+                    key=lambda n: n.lineno):
+                if st.lineno > dz[0].lineno:
+                    continue
+                fe = FiniteEval(env, where=rm.rel)
+                try:
+                    on = all(bool(fe.ev(g)) == pol for g, pol in
+                             au.guards_of(st, arm))
+                except AnalysisError:
+                    on = None
+                if not on:
+                    if on is None and st.targets[0].id == shp.id:
+                        cur = '?'
+                    continue
+                nm = st.targets[0].id
+                if nm != shp.id:
+                    try:
+                        env[nm] = fe.ev(st.value)
+                    except AnalysisError:
+                        pass
+                    continue
+                v = st.value
+                if isinstance(v, ast.Tuple) and v.elts and isinstance(
+                        v.elts[-1], ast.Starred) and ast.unparse(
+                            v.elts[-1].value) == shp.id and cur != '?':
+                    try:
+                        cur = [fe.ev(e) for e in v.elts[:-1]] + (
+                            [] if cur == 'BASE' else cur)
+                    except AnalysisError:
+                        cur = '?'
+                elif ast.unparse(v) == f'{S}.model.shape':
+                    cur = 'BASE'
+                else:
+                    cur = '?'
+            got = [] if cur == 'BASE' else cur
+        ctx.check('C18.Q2.output', f'dry run: gradient shape for a {case} '
+                  'model', got == lead, f'the placeholder gradient of a dry '
+                  f'run has the leading dimensions {got} for a {case} model; '
+                  f'the real run / Simulation.gradient gives {lead}',
+                  ctx.where(rm, dz[0]), sample={'case': case, 'lead': got})
     # default of receiver_interpolation per function: the API default
     # (absent) for forward and misfit, 'linear' only for the gradient (as the
     # documentation of the configuration file says)
